@@ -161,6 +161,17 @@ def call_production(it, path, sp, dest_ty):
         return r
     summ = it.env.get('summaries', {}).get(name)
     g.calls += 1
+    if it.env.get('record_ctx'):
+        # scope in force when this sub-parser is invoked: top of the keyword-version stack and depth of the directive stack
+        tls = it.env.get('tls') or {}
+        try:
+            vs = tls['CURRENT_VERSION'].fields[0].fields
+            top = vs[-1] if vs else None
+            vtop = None if top is None else (top.variant if type(top) is Enum else (('pushed:' + str(top.data)) if type(top) is Opaque else '?'))
+            ctx = (name, vtop, len(vs), len(tls['IN_DIRECTIVE'].fields[0].fields))
+        except Exception:
+            ctx = (name, '?', -1, -1)
+        g.__dict__.setdefault('ctx', []).append(ctx)
     okb = g.fresh('ok_' + name, 'Bool')
     if g.calls > MAX_ABSTRACT_CALLS:
         it.assume(z3.Not(okb))
@@ -726,6 +737,14 @@ def install(mdl, production_names=None):
                 if st.get('chars') and it.env.get('lex') is None:
                     it.assume(b < 128)         # abstract mode: a char look-ahead is decided for ASCII only (stated bound)
                 return some(Ref([b], 0)) if nm in ('first', 'get', 'peek') else some(b)
+            if nm == 'count' and not st['pos']:
+                n = st['frag'].n
+                if not st.get('chars'):
+                    return n
+                # number of characters of a string of n bytes: between n/4 and n (equal for ASCII text only)
+                c = gs(it).fresh('charcount')
+                it.assume(z3.And(c >= 0, c <= n, 4 * c >= n))
+                return c
             if nm == 'is_empty':
                 return peek_byte(it, st['frag'], st['pos']) is None
             if nm == 'len' and not st['pos']:
